@@ -8,7 +8,7 @@ from props import store_common
 
 PID = 'C06'
 META = {
-    'text': 'Theorems over the hand-written Gallina model of the shelve value path: the primary key computed for an identity (task, algorithm+version, state vector+version, value+version), target and run is stable for ever and distinct identities never share a key (ids are in bijection with versioned names), a load returns the content recorded under exactly that key, else under the highest run of the same identity and target, else leaves the slot untouched, and what it returns was stored under the same identity and target. Tied to the code by correspondence on generated histories (updates, loads, removals, version bumps, target additions, close/reopen, crashes) and a reference-dictionary oracle on the implementation.',
+    'text': 'Theorems over the hand-written Gallina model of the shelve value path: the primary key computed for an identity (task, algorithm+version, state vector+version, value+version), target and run is stable for ever and distinct identities never share a key (ids are in bijection with versioned names), a load returns the content recorded under exactly that key, else under the highest run of the same identity and target, else leaves the slot untouched, and what it returns was stored under the same identity and target. Tied to the code by correspondence on generated histories (updates, loads, removals, version bumps, target additions, close/reopen, crashes) and a reference-dictionary oracle on the implementation. The roundtrip also holds for histories in which a client call has its k-th write to one of the five name tables refused with OSError while the database carries on (Model/StoreFault.v, C06_roundtrip_faults: the reference dictionary records only the updates that answered; C06_key_stable_faults); those histories are compared with the real code by the C08 check.',
     'note': 'Trusted: Coq kernel; hand model Store.v/Catalogue.v; driver drive_store.py (sockets bypassed); pickle round trip and digest injectivity are hypotheses. The version attribute of a loaded Value is reset by Value.__setstate__ (contents are compared, with the sealed version). No axioms.',
     'technique': 'Coq proof over a hand-written model + model/implementation correspondence on generated histories + reference-dictionary oracle on the implementation',
 }
